@@ -20,7 +20,7 @@ FunsF == {"mpf_init", "mpf_init2", "mpf_clear", "mpf_init_set", "mpf_init_set_ui
           "mpf_trunc", "mpf_integer_p", "mpf_cmp", "mpf_cmp_ui", "mpf_cmp_si", "mpf_cmp_d", "mpf_sgn", "mpf_get_d", "mpf_get_d_2exp",
           "mpf_get_ui", "mpf_get_si", "mpf_fits_ulong_p", "mpf_fits_slong_p", "mpf_fits_uint_p", "mpf_fits_sint_p", "mpf_fits_ushort_p",
           "mpf_fits_sshort_p", "mpf_fits_ui_p", "mpf_fits_si_p", "mpz_set_f", "mpq_set_f", "mpf_set_default_prec", "drv_setf",
-          "mpf_set_str", "mpf_init_set_str", "mpf_get_str_n", "mpf_pow_ui", "mpf_cmp_z", "mpf_size", "mpf_eq", "mpf_reldiff",
+          "mpf_set_str", "mpf_init_set_str", "mpf_get_str_n", "mpf_get_str_buf", "mpf_pow_ui", "mpf_cmp_z", "mpf_size", "mpf_eq", "mpf_reldiff",
           "mpf_get_default_prec", "mpf_inits", "mpf_clears"}
 
 LOCAL SgnI(i) == IF i > 0 THEN 1 ELSE IF i < 0 THEN -1 ELSE 0
@@ -253,7 +253,7 @@ PostF(f, A, O, r, x, gl) ==
      [] f = "mpf_init_set_str" -> LET pr == ParseFlt(A[2], A[3]) IN
                                   /\ O[1].prec = gl.defprec
                                   /\ IF pr.open THEN TRUE ELSE IF pr.ok THEN r = 0 /\ SetStrOK(R, pr, p) ELSE r = -1
-     [] f = "mpf_get_str_n" -> GetStrOK(r.s, x, A[1], I(A[2]), A[3])
+     [] f \in {"mpf_get_str_n", "mpf_get_str_buf"} -> GetStrOK(r.s, x, A[1], I(A[2]), A[3])
      [] f = "mpf_pow_ui" ->      \* a product of e factors, each within the bound of mpf_mul: the bound composed e times; exact when everything fits
            LET e == I(A[3])  X == DyPow(Dy(A[2]), e) IN
            /\ Close(R, X, p - IBitLen(e) - 2)
